@@ -51,6 +51,10 @@ def templates(cfg):
     T("temporal_cmp", lambda p, t, u: u >> p.filter(u.d >= D0) >> p.mutate(m=p.min(u.d, D0), c=p.coalesce(u.t, T0)) >> p.arrange(u.d.nulls_last(), u.t.descending()), S_TM)
     T("temporal_agg", lambda p, t, u: u >> p.group_by(u.d) >> p.summarize(lo=u.t.min(), n=p.count()), S_TM)
     T("temporal_parse", lambda p, t, u: t >> p.mutate(x=t.s.str.to_date(), y=t.s.str.to_datetime()), S_TM)
+    # typed null literals (F66: compile_lit called math.isnan(None)) and a table grouped again and ungrouped after summarize
+    # (F67: assertion in the Ungroup branch of the SQL compiler); reported by a round-5 sub-agent
+    T("typed_null_literals", lambda p, t: t >> p.mutate(x=p.lit(None, p.Float64()), y=p.lit(None, p.Float64()) + t.f, z=p.lit(None, p.Int64()), w=p.lit(None, p.String()), q=p.lit(None, p.Bool())))
+    T("regroup_ungroup_after_summarize", lambda p, t: t >> p.group_by(t.a) >> p.summarize(m=t.b.sum()) >> p.group_by(p.C.a) >> p.ungroup() >> p.mutate(z=p.C.m + 1))
     T("float_literals", lambda p, t: t >> p.mutate(x=t.f + 1.5, y=t.f * -0.25, z=p.lit(2.0)))
     T("union_ops", lambda p, t: (t >> p.select(t.a, t.b)) >> p.union(t >> p.alias("u") >> p.select(p.C.b, p.C.a), distinct=True) >> p.arrange(p.C.a.nulls_last()))
     def self_join_alias(p, t):
